@@ -12,7 +12,7 @@ RULE = ("unit cases: one real SegmentFetcher (k 1..4) driven event by event (add
         "finder cases: one real ShareFinder over <= 8 servers with answers, errors and overdue timers in random order; "
         "grid cases: N<=6 shares placed on <= N+3 servers (several per server), subsets deleted / corrupted (block data, version "
         "field, truncation, hash trees, UEB) / failing on the nth read, DYHB answers that are late, lost, or arrive only after the finder's "
-        "OVERDUE timer has fired (grid time warp), schedules by seed; idle-node cases: one cached node, a first read served by k holders while the other "
+        "OVERDUE timer has fired (grid time warp), schedules by seed; a share of the cases under a frozen / coarse (1/64 s) / backwards / jumping downloader clock; idle-node cases: one cached node, a first read served by k holders while the other "
         "holders' DYHB answers arrive only after it finished, the used shares then deleted, the file read again through the same node; "
         "non-trivial = at least one share bad or one fault planned")
 META = {
@@ -586,6 +586,51 @@ BAD_KINDS = ["delete", "blocks", "version", "truncate", "read-error"]          #
 MAYBE_KINDS = ["ueb", "sharehashes", "blockhashes", "cthashes", "read-error-nth", "corrupt-answer"]   # usable or not, depending on the schedule
 
 
+CLOCKS = ["real", "real", "real", "frozen", "coarse", "backwards", "jumpy"]
+
+
+class downloader_clock(object):
+    """The downloader modules read the time through a module-level `now`; the harness substitutes it for the reads of
+    a case: `frozen` never advances (request and answer in the same tick of a coarse time.time()), `coarse` is the real
+    clock quantised to 1/64 s, `backwards` steps back on every call, `jumpy` jumps both ways (seeded).  How the clock
+    behaves must not change what a read returns."""
+
+    def __init__(self, mode, seed=0):
+        self.mode = mode
+        self.seed = seed
+        self.saved = []
+
+    def __enter__(self):
+        if self.mode == "real":
+            return self
+        import importlib
+        import random
+        import time
+        state = {"t": 1.7e9, "r": random.Random(self.seed)}
+
+        def now():
+            if self.mode == "frozen":
+                return state["t"]
+            if self.mode == "coarse":
+                return int(time.time() * 64) / 64.0
+            if self.mode == "backwards":
+                state["t"] -= 0.5
+                return state["t"]
+            state["t"] += state["r"].choice([-3.0, -0.01, 0.0, 0.0, 0.01, 2.0])
+            return state["t"]
+        for name in ("allmydata.immutable.downloader.share", "allmydata.immutable.downloader.finder", "allmydata.immutable.downloader.node",
+                     "allmydata.immutable.downloader.segmentation", "allmydata.immutable.filenode"):
+            mod = importlib.import_module(name)
+            self.saved.append((mod, mod.now))
+            mod.now = now
+        return self
+
+    def __exit__(self, *a):
+        for mod, old in self.saved:
+            mod.now = old
+        return False
+
+
 def gen_grid_case(r):
     k, n = r.choice([(1, 1), (1, 3), (2, 3), (2, 4), (3, 5), (3, 6), (2, 6)])
     servers = r.choice([max(1, n - 2), n, n + 1, n + 3])
@@ -627,7 +672,7 @@ def gen_grid_case(r):
             sfates[sv] = "dyhb-after-overdue"      # answers, but only after the finder's OVERDUE timer fired
     return {"k": k, "n": n, "servers": servers, "segsize": seg, "size": size, "place": place, "fates": fates,
             "server_fates": {str(a): b for a, b in sfates.items()}, "nth": r.randrange(0, 5), "seed": r.getrandbits(30),
-            "fifo": r.choice(["server", "server", "none"])}
+            "fifo": r.choice(["server", "server", "none"]), "clock": r.choice(CLOCKS)}
 
 
 def classify(case):
@@ -724,16 +769,17 @@ def run_c03_grid_case(case):
                     eventually(lambda: reactor.callLater(30.0, lambda: [g.unhang_server(sv) for sv in very_late]))
                 return start()
             return go
-        g.set_faults(plan)
-        out = g.run(with_late_servers(lambda: g.download(cap)), outcome=True)
-        for sv in very_late:
-            g.unhang_server(sv)
-        # a second read on a fresh node with another schedule
-        g.sched.reseed(case["seed"] + 1)
-        g.set_faults(plan)
-        out2 = g.run(with_late_servers(lambda: g.download_range(cap, 1, case["size"])), outcome=True)
-        for sv in very_late:
-            g.unhang_server(sv)
+        with downloader_clock(case.get("clock", "real"), case["seed"]):
+            g.set_faults(plan)
+            out = g.run(with_late_servers(lambda: g.download(cap)), outcome=True)
+            for sv in very_late:
+                g.unhang_server(sv)
+            # a second read on a fresh node with another schedule
+            g.sched.reseed(case["seed"] + 1)
+            g.set_faults(plan)
+            out2 = g.run(with_late_servers(lambda: g.download_range(cap, 1, case["size"])), outcome=True)
+            for sv in very_late:
+                g.unhang_server(sv)
     return data, out, out2
 
 
@@ -756,6 +802,8 @@ def judge_c03_grid_case(ctx, case, data, out, out2):
     for which, o, want in (("read", out, data), ("second read", out2, data[1:])):
         st = o.status
         ctx.count("grid-outcome:%s:%s" % (expect, st if st != "error" else o.error))
+        if case.get("clock", "real") != "real":
+            ctx.count("grid-clock:%s:%s:%s" % (case["clock"], expect, st if st != "error" else o.error))
         if lost:
             ctx.count("grid-lost-dyhb(overdue-timer):%s:%s" % (expect, st if st != "error" else o.error))
         if any(v == "dyhb-after-overdue" for v in case["server_fates"].values()):
@@ -825,7 +873,8 @@ def gen_idle_case(r):
     spoiled = sorted(r.sample(late, r.choice([0, 0, 0, 1]) if nlate > k else 0))     # late shares that are deleted too
     seg = r.choice([k * 16, 64, 4096])
     return {"k": k, "n": n, "fast": fast, "late": late, "spoiled": spoiled, "segsize": seg, "size": max(56, r.choice([60, seg + 3, 3 * seg])),
-            "how": r.choice(["hang", "hang", "delay"]), "extra_servers": r.choice([0, 0, 2]), "seed": r.getrandbits(30), "reads": r.choice([[None], [[5, 20], None]])}
+            "how": r.choice(["hang", "hang", "delay"]), "extra_servers": r.choice([0, 0, 2]), "seed": r.getrandbits(30), "reads": r.choice([[None], [[5, 20], None]]),
+            "clock": r.choice(CLOCKS)}
 
 
 def run_idle_case(case):
@@ -849,6 +898,8 @@ def run_idle_case(case):
             with open(os.path.join(d, str(shnum)), "wb") as f:
                 f.write(originals[shnum])
         node = g.node(cap)
+        clk = downloader_clock(case.get("clock", "real"), case["seed"])
+        clk.__enter__()
         if case["how"] == "hang":
             for sv in case["late"]:
                 g.hang_server(sv)
@@ -872,6 +923,7 @@ def run_idle_case(case):
                 outs.append((None, g.run(download_to_data(node), outcome=True)))
             else:
                 outs.append((rd, g.run(download_to_data(node, rd[0], rd[1]), outcome=True)))
+        clk.__exit__()
     return data, out1, outs, asked
 
 
